@@ -234,6 +234,74 @@ Proof.
   - cbn [parse_block]. rewrite E, IH. reflexivity.
 Qed.
 
+(* ---------- physical lines and logical lines ---------- *)
+(* a line feed ends an assignment only outside parentheses (parser.py: the post-lexer drops NEWLINE between an opening
+   parenthesis and its closing one); a "#" starts a comment that runs to the end of the physical line, parentheses
+   inside it do not count.  [depth_after d l]: the parenthesis depth behind physical line l when it is d in front *)
+Fixpoint depth_after (d : nat) (l : string) : nat :=
+  match l with
+  | EmptyString => d
+  | String c r =>
+      if (code c =? hash)%N then d
+      else if (code c =? 40)%N then depth_after (S d) r
+      else if (code c =? 41)%N then depth_after (Nat.pred d) r
+      else depth_after d r
+  end.
+
+Definition nl : string := String (ascii_of_nat 10) EmptyString.
+
+(* join physical lines into logical ones: acc is the part of the current logical line read so far *)
+Fixpoint logical (d : nat) (acc : string) (ls : list string) : list string :=
+  match ls with
+  | [] => match acc with EmptyString => [] | _ => [acc] end
+  | l :: r =>
+      let d' := depth_after d l in
+      if Nat.eqb d' 0 then (acc ++ l) :: logical 0 EmptyString r
+      else logical d' (acc ++ l ++ nl) r
+  end.
+
+Definition balanced (l : string) : Prop := depth_after 0 l = 0.
+
+(* one assignment per physical line: nothing is joined *)
+Theorem logical_of_balanced_lines ls : Forall balanced ls -> logical 0 EmptyString ls = ls.
+Proof.
+  induction 1 as [|l r Hl _ IH]; cbn [logical]; [reflexivity|].
+  unfold balanced in Hl. rewrite Hl. cbn [Nat.eqb append]. rewrite IH. reflexivity.
+Qed.
+
+(* a statement broken inside parentheses: while the depth behind each piece stays positive the pieces are collected, the
+   piece that closes the last parenthesis ends the logical line, and what follows is read on its own *)
+Fixpoint pieces_open (d : nat) (ps : list string) : Prop :=
+  match ps with
+  | [] => True
+  | p :: r => depth_after d p <> 0 /\ pieces_open (depth_after d p) r
+  end.
+Fixpoint depth_pieces (d : nat) (ps : list string) : nat :=
+  match ps with [] => d | p :: r => depth_pieces (depth_after d p) r end.
+Fixpoint glue (ps : list string) : string :=
+  match ps with [] => EmptyString | p :: r => p ++ nl ++ glue r end.
+
+Lemma append_assoc3 a b c : (a ++ b) ++ c = a ++ (b ++ c).
+Proof. induction a as [|x a IH]; cbn [append]; [reflexivity|rewrite IH; reflexivity]. Qed.
+
+Theorem logical_joins_broken_statement ps : forall d acc last rest,
+  pieces_open d ps -> depth_after (depth_pieces d ps) last = 0 ->
+  logical d acc (ps ++ last :: rest) = (acc ++ glue ps ++ last) :: logical 0 EmptyString rest.
+Proof.
+  induction ps as [|p r IH]; intros d acc last rest Ho Hc; cbn [List.app logical pieces_open depth_pieces glue] in *.
+  - rewrite Hc. reflexivity.
+  - destruct Ho as [Hp Hr]. destruct (depth_after d p) as [|k] eqn:E; [congruence|]. cbn [Nat.eqb].
+    rewrite (IH (S k) (acc ++ p ++ nl) last rest Hr Hc).
+    rewrite !append_assoc3. reflexivity.
+Qed.
+
+(* the body of a block given as physical lines: logical lines first, then one assignment per logical line *)
+Definition parse_body (ls : list string) : option (list (string * expr * option string)) :=
+  parse_block (logical 0 EmptyString ls).
+
+Corollary parse_body_of_balanced_lines ls : Forall balanced ls -> parse_body ls = parse_block ls.
+Proof. intros H. unfold parse_body. rewrite (logical_of_balanced_lines ls H). reflexivity. Qed.
+
 (* ---------- examples (computed) ---------- *)
 Example line_examples :
   parse_line "i_K = g_K*(V - E_K)  # uA/cm**2"
@@ -250,3 +318,10 @@ Example block_example :
   = Some [("i_K", EMul (EVar "g_K") (ESub (EVar "V") (EVar "E_K")), None); ("dV_dt", ENeg (EVar "i_K"), Some " mV/ms")].
 Proof. vm_compute. reflexivity. Qed.
 
+Example body_example :
+  parse_body ["i_K = g_K*("; "    V"; "    - E_K)  # uA/cm**2 (at 37 C"; "# done )"; "dV_dt = -i_K"]
+  = Some [("i_K", EMul (EVar "g_K") (ESub (EVar "V") (EVar "E_K")), Some " uA/cm**2 (at 37 C"); ("dV_dt", ENeg (EVar "i_K"), None)]
+  /\ logical 0 "" ["a = (b"; "+ c)"; "d = 1"] = [String.append "a = (b" (String.append nl "+ c)"); "d = 1"]
+  (* a comment in the middle of a broken statement is not part of the language: the grammar has comments behind expressions only *)
+  /\ parse_body ["i_K = g_K*("; "    V   # the potential"; "    - E_K)"] = None.
+Proof. vm_compute. repeat split; reflexivity. Qed.
